@@ -32,6 +32,7 @@ var importDirStyles = [][]string{
 	{".", "httpd", "httpd/b", "http-c", "httpd", "http-c/d"},
 	{".", "a dir", "a dir/b#1", "c@x", "a dir", "c@x/D"},
 	importDirs, // style 3: plain names, every file is a symbolic link to a file kept elsewhere
+	{".", "a", "a/b", "c", "a", "C"}, // style 4: files and directories whose paths differ only in letter case
 }
 
 func (s impSpec) dirOf(i int) string { return importDirStyles[s.style][i] }
@@ -42,6 +43,8 @@ func (s impSpec) baseOf(i int) string {
 		return fmt.Sprintf("http-f%d.yaml", i)
 	case 2:
 		return fmt.Sprintf("f %d+x.yaml", i)
+	case 4:
+		return []string{"main.yaml", "Part.yaml", "x.yaml", "Y.yaml", "part.yaml", "y.yaml"}[i]
 	}
 	return fmt.Sprintf("f%d.yaml", i)
 }
@@ -379,6 +382,14 @@ func runC17(col *Collector, tier string, seed int64) {
 				specs = append(specs, impSpec{n: n, edges: edges, broken: -1, dirImp: -1, style: 1 + mask%2})
 				tags = append(tags, "exh<=3+names")
 			}
+			if n == 3 && mask%5 == 2 {
+				// files 1 and 4 / 3 and 5 of the case-differing style need five or six files: pad with unreferenced ones
+				e6 := append(append([][]int{}, edges...), []int{}, []int{}, []int{})
+				e6[1] = append(append([]int{}, e6[1]...), 4)
+				e6[2] = append(append([]int{}, e6[2]...), 3, 5)
+				specs = append(specs, impSpec{n: 6, edges: e6, broken: -1, dirImp: -1, style: 4})
+				tags = append(tags, "exh<=3+case-names")
+			}
 			// break each position in turn (a sample in the quick tier for n=3)
 			for b := 0; b < n; b++ {
 				for _, kind := range []string{"missing", "unparsable"} {
@@ -417,7 +428,7 @@ func runC17(col *Collector, tier string, seed int64) {
 		case 2:
 			s.dotRoot = true
 		}
-		s.style = []int{0, 3, 1, 2}[k%4]
+		s.style = []int{0, 3, 1, 2, 4}[k%5]
 		specs = append(specs, s)
 		tags = append(tags, fmt.Sprintf("random+names%d", s.style))
 	}
